@@ -70,7 +70,15 @@ def Agg.ifaceOf (a : Agg) (d : Str) : Str :=
 /-- `remap_interface` on the interfaces a type mentions: dependencies first, then the interface itself -/
 def Agg.register (a : Agg) (ty : ItemTy) : Agg :=
   let ids := ty.deps ++ (match ty.iface with | some i => [i] | none => [])
-  { a with ifaces := ids.foldl (fun l d => if l.any fun i => compat i d then l else l ++ [d]) a.ifaces }
+  -- a later interface of a track is merged into the first one, which is then named for the
+  -- higher of the two versions
+  let higher (i d : Str) : Bool :=
+    match altKey i, altKey d with
+    | some (_, vi), some (_, vd) => vi.lt vd
+    | _, _ => false
+  { a with ifaces := ids.foldl (fun l d =>
+      if l.any fun i => compat i d then l.map fun i => if compat i d && higher i d then d else i
+      else l ++ [d]) a.ifaces }
 
 /-- an aggregated import type with its interfaces replaced by the merged ones -/
 def Agg.fix (a : Agg) (ty : ItemTy) : ItemTy :=
